@@ -29,7 +29,7 @@ LAYOUT = ["shape", "order", "level-missing", "level-extra", "driver-exception"]
 XLAYOUT = ["shape", "order", "tlorder", "level-plan", "level-missing", "accept", "faccept", "builderr", "driver-exception"]
 PROPS = {
     "C01": dict(suites={"plan": dict(fields=LAYOUT, oracles=["isolated", "exec_perm"]),
-                        "exec": dict(fields=XLAYOUT, oracles=["no_overlap", "borrow_panic"])}),
+                        "exec": dict(fields=XLAYOUT, oracles=["no_overlap", "borrow_panic"], kf1=True)}),
     "C02": dict(suites={"plan": dict(fields=LAYOUT, oracles=["deps_ordered"]),
                         "exec": dict(fields=XLAYOUT, oracles=["preds_done"])}),
     "C03": dict(suites={"plan": dict(fields=LAYOUT + ["tl", "tlorder"], oracles=["barriers", "tl_order"]),
